@@ -264,6 +264,53 @@ def case_oracle(case):
     return res
 
 
+def closure_step_search(ctx):
+    """optimizer.step(closure): the DP optimizer evaluates the closure (once), clips, noises, and the wrapped optimizer then
+    steps on THAT gradient – the noise drawn for the step is in the update (flat and distributed optimizers)."""
+    import torch.distributed as dist
+    from opacus import GradSampleModule
+    from opacus.optimizers import DPOptimizer
+    from opacus.optimizers.ddpoptimizer import DistributedDPOptimizer
+    for name in ("DPOptimizer", "DistributedDPOptimizer"):
+        torch.manual_seed(5)
+        model = nn.Linear(3, 2, bias=False)
+        gsm = GradSampleModule(model)
+        inner = torch.optim.SGD(model.parameters(), lr=1.0)
+        kw = dict(noise_multiplier=1.0, max_grad_norm=1.0, expected_batch_size=2, loss_reduction="mean")
+        if name == "DPOptimizer":
+            opt = DPOptimizer(inner, **kw)
+        else:
+            saved = (dist.get_rank, dist.get_world_size, dist.all_reduce)
+            dist.get_rank, dist.get_world_size, dist.all_reduce = (lambda *a, **k: 0), (lambda *a, **k: 1), (lambda t, *a, **k: None)
+            opt = DistributedDPOptimizer(inner, **kw)
+        x = torch.zeros(2, 3)        # zero data: the clipped sum is 0, the released gradient is pure noise
+        n_eval = [0]
+
+        def closure():
+            n_eval[0] += 1
+            opt.zero_grad()
+            loss = gsm(x).sum(1).mean()
+            loss.backward()
+            return loss
+
+        before = model.weight.detach().clone()
+        try:
+            with rig.patched_normal("count") as log:
+                opt.step(closure)
+        finally:
+            if name != "DPOptimizer":
+                dist.get_rank, dist.get_world_size, dist.all_reduce = saved
+        delta = (model.weight.detach() - before)
+        want = -torch.full_like(before, float(len(log.calls))) / 2.0 if log.calls else None   # lr = 1, E = 2, one draw (its call number) per parameter
+        ctx.case(("closure-step", name), nontrivial=True, kind="closure-step:" + name)
+        if n_eval[0] != 1 or want is None or not torch.allclose(delta, want):
+            ctx.property_failure(f"C04:closure-step:noise-not-in-update:{name}", f"{name}.step(closure): the closure ran {n_eval[0]} time(s), {len(log.calls)} noise tensor(s) were drawn, "
+                                 f"the parameters moved by {delta.flatten().tolist()[:3]}… (noise/E expected: {None if want is None else want.flatten().tolist()[:3]}…)",
+                                 {"failing_input": {"oracle": "closure-step", "optimizer": name}})
+        else:
+            ctx.validated()
+
+
 def ddp_perlayer_queue_search(ctx, only=None):
     """DistributedPerLayerOptimizer adds its noise inside per-parameter backward hooks and only PEEKS at the skip-signal
     queue there (`pre_step` pops it).  With a prefetching loader the BatchSplittingSampler runs ahead, so several
@@ -460,6 +507,7 @@ def run(ctx):
         reproducibility_search(ctx)
     engine_generator_search(ctx)
     ddp_perlayer_queue_search(ctx)
+    closure_step_search(ctx)
 
 
 def replay(ctx, rp):
